@@ -2,6 +2,7 @@ import Grexv.Lemmas.DefaultExact
 import Grexv.Lemmas.Presentation
 import Grexv.Lemmas.Sort
 import Grexv.Lemmas.Stages
+import Grexv.Lemmas.XTop
 
 /-
 S1 … S9 and matching composed, for every combination of the six shorthand-class options and capturing groups
@@ -69,27 +70,20 @@ theorem plainBs_atoms_nil (c : Cluster) (h : PlainBs c) (ha : atomsOf c = []) : 
 form where that keeps the number of code points and still matches it -/
 def storedCases (cfg : Config) (env : Env) (ws : List Str) : List Str := if cfg.ci then lowerCases env ws else ws
 
-/-- **C03, C02 and C04 for the model, all inputs** for every combination of the six class options, with or without
-capturing groups, with or without the case-insensitive option, everything else at its default: for every list of test
-cases containing a non-empty one, every segmentation meeting its contract and every string `s` of scalar values,
-`RegExp::from` succeeds, the printed text is accepted by `Regex::new`, and the compiled pattern matches `s` in full
-**iff `s` is obtained from some non-empty stored test case by replacing each code point independently by a member of
-what it was converted to** (the code point itself — under `(?i)` any member of its simple-case-folding orbit — if it
-was not converted, any member of the shorthand class otherwise) -/
-theorem classes_exact_ci (cfg : Config) (hp : PlainPrintCI cfg) (env : Env) (ws : List Str) (st : Stages)
+/-- the expression kept when an anchor is in place: well-formed, and its string-level language is the set of generalised
+non-empty stored test cases -/
+theorem final_expr_exact (cfg : Config) (hrep : cfg.rep = false) (hanch : (cfg.noStart && cfg.noEnd) = false)
+    (env : Env) (ws : List Str) (st : Stages)
     (h : regExpFrom cfg env ws = .ok st) (hseg : ∀ w ∈ storedCases cfg env ws, SegOK env w)
-    (hne : ∃ t ∈ storedCases cfg env ws, t ≠ [])
-    (s : Str) (hs : ∀ c ∈ s, Scalar c) :
-    ∃ P, Spec.parse (fmtRegExp cfg st.finalAst) = some (⟨cfg.ci, false⟩, P) ∧
-      (Spec.fullMatch cfg.ci P s = true ↔
-        ∃ t ∈ storedCases cfg env ws, t ≠ [] ∧ atomsDen cfg.ci (t.map (convAtom cfg)) s) := by
-  have hanch : (cfg.noStart && cfg.noEnd) = false := hp.anch
+    (hne : ∃ t ∈ storedCases cfg env ws, t ≠ []) :
+    st.finalAst.WF ∧ ∀ (i : Bool) (s : Str), (st.finalAst.strLang i s ↔
+        ∃ t ∈ storedCases cfg env ws, t ≠ [] ∧ atomsDen i (t.map (convAtom cfg)) s) := by
   simp only [regExpFrom, hanch, Bool.false_eq_true, ite_false] at h
   change (match Dfa.minimize (Dfa.trie (graphemeClusters cfg env (sortCases (storedCases cfg env ws)))) Dfa.pickMin with
     | none => _ | some dmin => _) = _ at h
   generalize storedCases cfg env ws = ws1 at h hseg hne ⊢
   have hseg' : ∀ w ∈ sortCases ws1, SegOK env w := fun w hw => hseg w ((sortCases_mem' ws1 w).mp hw)
-  obtain ⟨f, hcl, hpl⟩ := clusters_atoms cfg hp.rep env (sortCases ws1) hseg'
+  obtain ⟨f, hcl, hpl⟩ := clusters_atoms cfg hrep env (sortCases ws1) hseg'
   generalize hcls : graphemeClusters cfg env (sortCases ws1) = cls at h hcl
   have hclP : ∀ cl ∈ cls, PlainBs cl := by
     intro cl hc
@@ -139,11 +133,9 @@ theorem classes_exact_ci (cfg : Config) (hp : PlainPrintCI cfg) (env : Env) (ws 
       have := (hlang (f t0))
       rw [← accepts_iff_langFrom', hacc, he] at this
       exact this.mpr hwitness
-  rw [fmtRegExp_plainCI_eq cfg hp, hof]
-  obtain ⟨P, hparse, hmatch⟩ := printed_acceptsA cfg.ci cfg.cap cfg.esc cfg.noStart cfg.noEnd _ hwf s hs
-  refine ⟨P, hparse, ?_⟩
-  rw [hmatch]
-  simp only [Expr.strLang, ← hof, hlangE]
+  refine ⟨by rw [hof]; exact hwf, ?_⟩
+  intro i s
+  simp only [Expr.strLang, hlangE]
   constructor
   · rintro ⟨w, ⟨hw, hwne⟩, hd⟩
     rw [hcl] at hw
@@ -163,6 +155,75 @@ theorem classes_exact_ci (cfg : Config) (hp : PlainPrintCI cfg) (env : Env) (ws 
     cases t with
     | nil => exact htne rfl
     | cons a r => simp [atomsOf] at this
+
+/-- **C03, C02 and C04 for the model, all inputs** for every combination of the six class options, with or without
+capturing groups, with or without the case-insensitive option, everything else at its default: for every list of test
+cases containing a non-empty one, every segmentation meeting its contract and every string `s` of scalar values,
+`RegExp::from` succeeds, the printed text is accepted by `Regex::new`, and the compiled pattern matches `s` in full
+**iff `s` is obtained from some non-empty stored test case by replacing each code point independently by a member of
+what it was converted to** (the code point itself — under `(?i)` any member of its simple-case-folding orbit — if it
+was not converted, any member of the shorthand class otherwise) -/
+theorem classes_exact_ci (cfg : Config) (hp : PlainPrintCI cfg) (env : Env) (ws : List Str) (st : Stages)
+    (h : regExpFrom cfg env ws = .ok st) (hseg : ∀ w ∈ storedCases cfg env ws, SegOK env w)
+    (hne : ∃ t ∈ storedCases cfg env ws, t ≠ [])
+    (s : Str) (hs : ∀ c ∈ s, Scalar c) :
+    ∃ P, Spec.parse (fmtRegExp cfg st.finalAst) = some (⟨cfg.ci, false⟩, P) ∧
+      (Spec.fullMatch cfg.ci P s = true ↔
+        ∃ t ∈ storedCases cfg env ws, t ≠ [] ∧ atomsDen cfg.ci (t.map (convAtom cfg)) s) := by
+  obtain ⟨hwf, hlang⟩ := final_expr_exact cfg hp.rep hp.anch env ws st h hseg hne
+  rw [fmtRegExp_plainCI_eq cfg hp]
+  obtain ⟨P, hparse, hmatch⟩ := printed_acceptsA cfg.ci cfg.cap cfg.esc cfg.noStart cfg.noEnd _ hwf s hs
+  exact ⟨P, hparse, hmatch.trans (hlang cfg.ci s)⟩
+
+/-! ### verbose mode -/
+
+/-- verbose settings covered end to end: no `-r`, no surrogate pairs, no colours, at least one anchor (with both
+anchors disabled `RegExp::from` re-compiles the verbose candidate without its line breaks: C07) -/
+structure VerbosePrint (cfg : Config) : Prop where
+  rep : cfg.rep = false
+  sur : cfg.sur = false
+  color : cfg.color = false
+  verb : cfg.verb = true
+  anch : (cfg.noStart && cfg.noEnd) = false
+
+theorem indentLines_congr {c1 c2 : Config} (h : c1.noStart = c2.noStart) : ∀ (ls : List Str) (i l : Nat),
+    indentLines c1 ls i l = indentLines c2 ls i l
+  | [], _, _ => by simp only [indentLines]
+  | line :: rest, i, l => by
+    rw [indentLines, indentLines, h]
+    simp only []
+    split
+    · exact indentLines_congr h rest _ _
+    · rw [indentLines_congr h rest]
+
+theorem fmtRegExp_verbose_eq (cfg : Config) (h : VerbosePrint cfg) (e : Expr) :
+    fmtRegExp cfg e = fmtRegExp (cfgVerb cfg.cap cfg.esc cfg.ci cfg.noStart cfg.noEnd) e := by
+  have hb : bodyText cfg e = bodyText (cfgVerb cfg.cap cfg.esc cfg.ci cfg.noStart cfg.noEnd) e :=
+    bodyText_congr (c1 := cfg) (c2 := cfgVerb cfg.cap cfg.esc cfg.ci cfg.noStart cfg.noEnd) ⟨rfl, rfl, h.sur, h.verb, h.color⟩ e
+  have hi : ∀ s, indentRegexp cfg s = indentRegexp (cfgVerb cfg.cap cfg.esc cfg.ci cfg.noStart cfg.noEnd) s := by
+    intro s
+    unfold indentRegexp
+    rw [indentLines_congr (c1 := cfg) (c2 := cfgVerb cfg.cap cfg.esc cfg.ci cfg.noStart cfg.noEnd) rfl]
+  unfold fmtRegExp
+  simp only [h.verb, h.color, hb, hi, cfgVerb, Bool.and_true, ite_true]
+  try rfl
+
+/-- **verbose mode, end to end (C06, C01–C04, C07, C08 in verbose mode)** for every subset of the class options, with
+or without capturing groups, `-e`, `-i`, with at least one anchor: the verbose text — flag line, one lexeme group per
+line, indentation, `#`, blank and other white space escaped — is accepted by the model of `Regex::new` with the flags
+`x` (and `i`) set, and the compiled pattern matches a string in full iff it is a generalised non-empty stored test case:
+exactly the language of the build without verbose mode -/
+theorem classes_exact_verbose (cfg : Config) (hp : VerbosePrint cfg) (env : Env) (ws : List Str) (st : Stages)
+    (h : regExpFrom cfg env ws = .ok st) (hseg : ∀ w ∈ storedCases cfg env ws, SegOK env w)
+    (hne : ∃ t ∈ storedCases cfg env ws, t ≠ [])
+    (s : Str) (hs : ∀ c ∈ s, Scalar c) :
+    ∃ P, Spec.parse (fmtRegExp cfg st.finalAst) = some (⟨cfg.ci, true⟩, P) ∧
+      (Spec.fullMatch cfg.ci P s = true ↔
+        ∃ t ∈ storedCases cfg env ws, t ≠ [] ∧ atomsDen cfg.ci (t.map (convAtom cfg)) s) := by
+  obtain ⟨hwf, hlang⟩ := final_expr_exact cfg hp.rep hp.anch env ws st h hseg hne
+  rw [fmtRegExp_verbose_eq cfg hp]
+  obtain ⟨P, hparse, hmatch⟩ := printed_accepts_verbose cfg.ci cfg.cap cfg.esc cfg.noStart cfg.noEnd _ hwf s hs
+  exact ⟨P, hparse, hmatch.trans (hlang cfg.ci s)⟩
 
 /-- the case-sensitive special case -/
 theorem classes_exact (cfg : Config) (hp : PlainPrint cfg) (env : Env) (ws : List Str) (st : Stages)
@@ -351,12 +412,10 @@ theorem classes_bounds_any_anchor (cfg : Config) (hp : PlainPrintNA cfg) (env : 
     | nil => exact htne rfl
     | cons a r => simp [atomsOf] at this
 
-/-- **validity for every anchor setting**: whatever expression `RegExp::from` keeps, the text it returns is accepted by
-the model of `Regex::new` — for every non-empty list of test cases (no other hypothesis on them than the segmentation
-contract), every subset of the class options, with or without capturing groups, `-e`, `-i`, any anchors -/
-theorem classes_valid_any_anchor (cfg : Config) (hp : PlainPrintNA cfg) (env : Env) (ws : List Str) (st : Stages)
+/-- whatever expression `RegExp::from` keeps is well-formed (no `-r`, any other setting) -/
+theorem final_expr_wf (cfg : Config) (hrep : cfg.rep = false) (env : Env) (ws : List Str) (st : Stages)
     (h : regExpFrom cfg env ws = .ok st) (hseg : ∀ w ∈ storedCases cfg env ws, SegOK env w) (hws : ws ≠ []) :
-    ∃ P, Spec.parse (fmtRegExp cfg st.finalAst) = some (⟨cfg.ci, false⟩, P) := by
+    st.finalAst.WF := by
   have hthree := from_final_three cfg env ws st h
   obtain ⟨h1, h2, h3, h4, h5⟩ := from_stages_shape cfg env ws st h
   change st.sorted = sortCases (storedCases cfg env ws) at h1
@@ -365,7 +424,7 @@ theorem classes_valid_any_anchor (cfg : Config) (hp : PlainPrintNA cfg) (env : E
     split <;> simpa using hws
   generalize storedCases cfg env ws = ws1 at h1 hseg hws1
   have hseg' : ∀ w ∈ sortCases ws1, SegOK env w := fun w hw => hseg w ((sortCases_mem' ws1 w).mp hw)
-  obtain ⟨f, hcl, hpl⟩ := clusters_atoms cfg hp.rep env (sortCases ws1) hseg'
+  obtain ⟨f, hcl, hpl⟩ := clusters_atoms cfg hrep env (sortCases ws1) hseg'
   rw [← h1, ← h2] at hcl
   generalize hcls : st.clusters = cls at *
   have hclP : ∀ cl ∈ cls, PlainBs cl := by
@@ -411,6 +470,15 @@ theorem classes_valid_any_anchor (cfg : Config) (hp : PlainPrintNA cfg) (env : E
           have : a ∈ sortCases ws1 := (sortCases_mem' ws1 a).mpr (by rw [hw]; exact List.mem_cons_self)
           rw [hs0] at this
           cases this
+  exact hwf
+
+/-- **validity for every anchor setting**: whatever expression `RegExp::from` keeps, the text it returns is accepted by
+the model of `Regex::new` — for every non-empty list of test cases (no other hypothesis on them than the segmentation
+contract), every subset of the class options, with or without capturing groups, `-e`, `-i`, any anchors -/
+theorem classes_valid_any_anchor (cfg : Config) (hp : PlainPrintNA cfg) (env : Env) (ws : List Str) (st : Stages)
+    (h : regExpFrom cfg env ws = .ok st) (hseg : ∀ w ∈ storedCases cfg env ws, SegOK env w) (hws : ws ≠ []) :
+    ∃ P, Spec.parse (fmtRegExp cfg st.finalAst) = some (⟨cfg.ci, false⟩, P) := by
+  have hwf := final_expr_wf cfg hp.rep env ws st h hseg hws
   rw [fmtRegExp_plainNA_eq cfg hp]
   exact ⟨_, parse_ci_prefixG _ _ (flags_printedA cfg.cap cfg.esc cfg.noStart cfg.noEnd _ hwf)
     (parse_printedA cfg.cap cfg.esc cfg.noStart cfg.noEnd _ hwf) cfg.ci⟩
@@ -540,5 +608,41 @@ theorem default_valid (cap : Bool) (env : Env) (ws : List Str) (st : Stages)
     (h : regExpFrom (cfgPlain cap false) env ws = .ok st) (hseg : ∀ w ∈ ws, SegOK env w) :
     ∃ P, Spec.parse (fmtRegExp (cfgPlain cap false) st.finalAst) = some (⟨false, false⟩, P) :=
   classes_valid (cfgPlain cap false) (plainPrint_cfgPlain cap) env ws st h hseg
+
+/-! ### verbose mode: validity, and the language is that of the build without it -/
+
+/-- the same settings with verbose mode switched on / off -/
+def withVerb (cfg : Config) (b : Bool) : Config := { cfg with verb := b }
+
+/-- **C07 in verbose mode** (with an anchor in place): the returned verbose text is accepted under its `(?x)` / `(?ix)` flag
+— for every non-empty list of test cases, every subset of the class options, capturing groups, `-e`, `-i` -/
+theorem classes_valid_verbose (cfg : Config) (hp : VerbosePrint cfg) (env : Env) (ws : List Str) (st : Stages)
+    (h : regExpFrom cfg env ws = .ok st) (hseg : ∀ w ∈ storedCases cfg env ws, SegOK env w) (hws : ws ≠ []) :
+    ∃ P, Spec.parse (fmtRegExp cfg st.finalAst) = some (⟨cfg.ci, true⟩, P) := by
+  have hwf := final_expr_wf cfg hp.rep env ws st h hseg hws
+  rw [fmtRegExp_verbose_eq cfg hp]
+  exact ⟨_, parse_verbose cfg.cap cfg.esc cfg.ci cfg.noStart cfg.noEnd _ hwf⟩
+
+/-- **C06: verbose mode is presentation only (language level, all inputs)** for every subset of the class options, with or
+without capturing groups, `-e`, `-i`, with at least one anchor: the verbose build and the build without verbose mode are
+both accepted by the model of `Regex::new` (the former with the `x` flag set) and match exactly the same strings in full -/
+theorem verbose_same_language (cfg : Config) (hp : PlainPrintCI cfg) (env : Env) (ws : List Str) (stV st0 : Stages)
+    (hV : regExpFrom (withVerb cfg true) env ws = .ok stV) (h0 : regExpFrom (withVerb cfg false) env ws = .ok st0)
+    (hseg : ∀ w ∈ storedCases cfg env ws, SegOK env w) (hne : ∃ t ∈ storedCases cfg env ws, t ≠ [])
+    (s : Str) (hs : ∀ c ∈ s, Scalar c) :
+    ∃ PV P0, Spec.parse (fmtRegExp (withVerb cfg true) stV.finalAst) = some (⟨cfg.ci, true⟩, PV) ∧
+      Spec.parse (fmtRegExp (withVerb cfg false) st0.finalAst) = some (⟨cfg.ci, false⟩, P0) ∧
+      Spec.fullMatch cfg.ci PV s = Spec.fullMatch cfg.ci P0 s := by
+  have hpV : VerbosePrint (withVerb cfg true) := ⟨hp.rep, hp.sur, hp.color, rfl, hp.anch⟩
+  have hp0 : PlainPrintCI (withVerb cfg false) := ⟨hp.rep, hp.sur, rfl, hp.color, hp.anch⟩
+  obtain ⟨PV, pV, mV⟩ := classes_exact_verbose (withVerb cfg true) hpV env ws stV hV hseg hne s hs
+  obtain ⟨P0, p0, m0⟩ := classes_exact_ci (withVerb cfg false) hp0 env ws st0 h0 hseg hne s hs
+  refine ⟨PV, P0, pV, p0, ?_⟩
+  have hiff : Spec.fullMatch cfg.ci PV s = true ↔ Spec.fullMatch cfg.ci P0 s = true := mV.trans m0.symm
+  cases h : Spec.fullMatch cfg.ci PV s <;> cases h' : Spec.fullMatch cfg.ci P0 s
+  · rfl
+  · exact absurd (hiff.mpr h') (by simp [h])
+  · exact absurd (hiff.mp h) (by simp [h'])
+  · rfl
 
 end Grexv
